@@ -334,6 +334,22 @@ def canSetMassFracs (a : α) (mf : NDens) : Bool :=
 
 end Generic
 
+/-! ## component-level overrides -/
+
+/-- `Component.addMass(n, m)`: `Composite.addMass(n, m * parentSymmetryFactor)` — masses are those of the
+symmetry-cut volume, as in `Component.getMass` -/
+def Comp.addMass (ph : Phys) (c : Comp) (n : Nuc) (m : Rat) : Comp := _root_.ArmiVerif.Compo.addMass (compOps ph) ph c n (m * c.psym)
+def Comp.canAddMass (ph : Phys) (c : Comp) (n : Nuc) (m : Rat) : Bool := _root_.ArmiVerif.Compo.canAddMass (compOps ph) ph c n (m * c.psym)
+
+/-- `Component.setMass(n, m)`: `Composite.setMass(n, m * parentSymmetryFactor)` -/
+def Comp.setMass (ph : Phys) (c : Comp) (n : Nuc) (m : Rat) : Comp := _root_.ArmiVerif.Compo.setMass (compOps ph) ph c n (m * c.psym)
+def Comp.canSetMass (ph : Phys) (c : Comp) (n : Nuc) (m : Rat) : Bool := _root_.ArmiVerif.Compo.canSetMass (compOps ph) ph c n (m * c.psym)
+
+/-- `Component.density()`: the composite density `Σ N A / K`; only a component with NO nuclides at all (and a
+non-void material) reports its material's density instead (`matDensity`, a parameter) -/
+def Comp.density (ph : Phys) (matDensity : Rat) (isVoid : Bool) (c : Comp) : Rat :=
+  if c.nd.isEmpty && !isVoid then matDensity else _root_.ArmiVerif.Compo.density (compOps ph) ph c
+
 /-! ## the three concrete levels -/
 
 abbrev Block := Node Comp
